@@ -56,6 +56,8 @@ func makeArray(t reflect.Type, n int) array {
 
 func (a array) index(i int) value { return value{val: a.val.Index(i)} }
 
+func (a array) slice(n int) array { return array{val: a.val.Slice(0, n)} }
+
 func indexOf(s reflect.StructField) index { return s.Index }
 
 func bytesToString(b []byte) string { return string(b) }
